@@ -328,3 +328,10 @@ package typed
 //@   label small-values-take-one-byte
 //@   ensures old(w.err) == nil && w.err == nil && n < 128 ==> len(old(w.remaining)) - len(w.remaining) == 1 && u8at(old(w.remaining), 0) == n
 //@   property C18 C06
+
+// A pooled Reader starts every use clean: it reads from the given reader and
+// carries no error left over from its previous user.
+//@ func NewReader(reader io.Reader) (r *Reader)
+//@   label pooled-reader-starts-clean
+//@   ensures r != nil && r.err == nil && r.reader == reader
+//@   property C18
